@@ -44,12 +44,19 @@ def replay_and_validate(tag, init, behaviours, shards=16, timeout=1800, seed=0):
     # instead of leaving map() waiting for ever
     from concurrent.futures import ProcessPoolExecutor
     from concurrent.futures.process import BrokenProcessPool
-    try:
-        with ProcessPoolExecutor(max_workers=min(n, os.cpu_count() or 1),
-                                 mp_context=mp.get_context("fork")) as pool:
-            outs = list(pool.map(_drive_chunk, [(tag, i, init, c, seed) for i, c in enumerate(chunks)]))
-    except BrokenProcessPool as e:
-        raise MachineryError("a replay worker died (%s); reduce the number of behaviours" % (e,))
+    outs = None
+    workers = min(n, os.cpu_count() or 1)
+    for attempt in (1, 2, 3):
+        try:
+            with ProcessPoolExecutor(max_workers=workers, mp_context=mp.get_context("fork")) as pool:
+                outs = list(pool.map(_drive_chunk, [(tag, i, init, c, seed) for i, c in enumerate(chunks)]))
+            break
+        except BrokenProcessPool as e:
+            # a worker was killed from outside (memory pressure): once more with fewer workers
+            if attempt == 3:
+                raise MachineryError("a replay worker died (%s); reduce the number of behaviours" % (e,))
+            workers = max(1, workers // 2)
+            time.sleep(15 * attempt)
     t_drive = time.time() - t0
     files = [o[0] for o in outs]
     nsteps = sum(o[1] for o in outs)
